@@ -42,6 +42,8 @@ static void roy_gas(Draw &d, PV &p, bool sweep, double sp, const std::vector<std
     if (n == "L") { long double l = d.logU(0.3L, 30.0L); kv.second = d.coin(0.3) ? -l : l; continue; }
     if (n == "R") { kv.second = pband(d) * f; continue; }
     kv.second = v * f;
+    // wave numbers: one in five is a small whole number (single-mode set-ups; with lattice points the phase a*x/L then lands exactly on nodes and antinodes)
+    { bool ig = d.coin(0.2); int iv = d.range(1, 3); bool ng = d.coin(0.3); if (ig && starts(n, "a_")) kv.second = ng ? -(long double)iv : (long double)iv; }
   }
   for (auto &fld : posfields) {
     std::string b = fld + "_0"; if (!p.count(b)) continue;
@@ -55,9 +57,15 @@ static void roy_gas(Draw &d, PV &p, bool sweep, double sp, const std::vector<std
 
 // points: mostly a box of a few wavelengths; one coordinate in twelve is exactly 0, one in ten lies far out (|x| up to 50, tiny |x| down to 1e-4),
 // the time is negative in 15% and exactly 0 in 8% of the cases (every draw consumes the same entropy)
-static void box(Draw &d, long double *pt, int nsp, bool tr) {
-  for (int i = 0; i < nsp; i++) { long double v = d.U(0.05L, 2.0L); bool neg = d.coin(0.5); bool zero = d.coin(0.08); bool far = d.coin(0.1); long double w = d.logU(1e-4L, 50.0L); if (far) v = w; if (zero) v = 0; pt[i] = neg ? -v : v; }
-  if (tr) { long double v = d.U(0.01L, 3.0L); bool neg = d.coin(0.15); bool zero = d.coin(0.08); bool far = d.coin(0.08); long double w = d.logU(1e-4L, 40.0L); if (far) v = w; if (zero) v = 0; pt[nsp] = neg ? -v : v; } }
+static void box(Draw &d, long double *pt, int nsp, bool tr, long double L = 1) {
+  // lattice points: what a user's loop over a mesh produces and a continuous draw never does (x = 0.5, x = L, integer coordinates, x = L/2 ...);
+  // one coordinate in ten is put on the lattice, in units of 1 or of the solution's length scale L
+  static const long double lat[] = {0.25L, 0.5L, 1.0L, 2.0L, 3.0L, 1.5L, 4.0L, 0.125L};
+  if (!(fabsl(L) > 0) || !std::isfinite((double)L)) L = 1;
+  for (int i = 0; i < nsp; i++) { long double v = d.U(0.05L, 2.0L); bool neg = d.coin(0.5); bool zero = d.coin(0.08); bool far = d.coin(0.1); long double w = d.logU(1e-4L, 50.0L); bool grid = d.coin(0.1); int gk = d.range(0, 7); bool inL = d.coin(0.5);
+    if (far) v = w; if (grid) v = lat[gk] * (inL ? fabsl(L) : 1.0L); if (zero) v = 0; pt[i] = neg ? -v : v; }
+  if (tr) { long double v = d.U(0.01L, 3.0L); bool neg = d.coin(0.15); bool zero = d.coin(0.08); bool far = d.coin(0.08); long double w = d.logU(1e-4L, 40.0L); bool grid = d.coin(0.1); int gk = d.range(0, 7);
+    if (far) v = w; if (grid) v = lat[gk]; if (zero) v = 0; pt[nsp] = neg ? -v : v; } }
 
 // ------------------------------------------------------------------ library entry points
 #define A1 (a[0])
@@ -78,7 +86,7 @@ static std::vector<Spec> build() {
       Spec s; s.name = "heateq_" + std::to_string(dim) + "d_" + kinds[k]; s.props = {"C01", "C09"};
       bool uns = k >= 2; int n = dim + (uns ? 1 : 0); s.nargs = n;
       s.gen = [](Draw &d, PV &p, bool sweep) { for (auto &kv : p) { long double v = band(d); long double f = sweepf(d, sweep, 0.33); kv.second = v * f; } };
-      s.genpt = [dim, uns](Draw &d, long double *pt, const PV &) { box(d, pt, dim, uns); };
+      s.genpt = [dim, uns](Draw &d, long double *pt, const PV &p) { box(d, pt, dim, uns); };
       auto ref = [dim, uns](const PM &p, const Q *x) { return Heat::ref(p, x, dim, uns); };
       Ev e; e.label = "source_t"; e.kind = 0; e.ref = ref;
       if (n == 1) { e.ld = [](const long double *a) { return masa_eval_source_t<long double>(a[0]); }; e.d = [](const double *a) { return masa_eval_source_t<double>(a[0]); }; }
@@ -99,7 +107,7 @@ static std::vector<Spec> build() {
   auto gasgen = [](Draw &d, PV &p, bool sweep) { roy_gas(d, p, sweep, 0.33, {"rho", "p"}); };
   auto cartspec = [&](const std::string &name, int nsp, bool tr, bool visc, bool rho_names, bool grads) {
     Spec s; s.name = name; s.props = {visc ? "C03" : "C02", "C09"}; if (grads) s.props.push_back("C07"); s.nargs = nsp + (tr ? 1 : 0);
-    s.gen = gasgen; s.genpt = [nsp, tr](Draw &d, long double *pt, const PV &) { box(d, pt, nsp, tr); };
+    s.gen = gasgen; s.genpt = [nsp, tr](Draw &d, long double *pt, const PV &p) { auto it = p.find("L"); box(d, pt, nsp, tr, it == p.end() ? 1.0L : it->second); };
     int n = s.nargs;
     // sources: label -> equation index
     struct SrcDef { const char *label; int eq; int minsp; };
@@ -154,7 +162,10 @@ static std::vector<Spec> build() {
   auto axispec = [&](const std::string &name, int variant, bool tr, bool visc) {
     Spec s; s.name = name; s.props = {visc ? "C03" : "C02", "C09"}; s.nargs = tr ? 3 : 2;
     s.gen = gasgen;
-    s.genpt = [tr](Draw &d, long double *pt, const PV &) { pt[0] = d.logU(0.05L, 5.0L); long double z = d.U(0.05L, 2.0L); pt[1] = d.coin(0.5) ? -z : z; if (tr) pt[2] = d.U(0.01L, 3.0L); };
+    s.genpt = [tr](Draw &d, long double *pt, const PV &) { pt[0] = d.logU(0.05L, 5.0L); long double z = d.U(0.05L, 2.0L); pt[1] = d.coin(0.5) ? -z : z; if (tr) pt[2] = d.U(0.01L, 3.0L);
+      // mesh-like values (r stays positive): r, z and t on a lattice in one case of ten each, z = 0 and t = 0 included
+      static const long double lat[] = {0.25L, 0.5L, 1.0L, 2.0L, 3.0L, 1.5L, 4.0L, 0.125L}; bool gr = d.coin(0.1), gz = d.coin(0.1), gt = d.coin(0.1); int kr = d.range(0, 7), kz = d.range(0, 8), kt = d.range(0, 8); bool nz = d.coin(0.5);
+      if (gr) pt[0] = lat[kr]; if (gz) pt[1] = kz == 8 ? 0.0L : (nz ? -lat[kz] : lat[kz]); if (tr && gt) pt[2] = kt == 8 ? 0.0L : lat[kt]; };
     const char *lab_s[4] = {"source_rho", "source_rho_u", "source_rho_w", "source_rho_e"}; const char *lab_t[4] = {"source_rho", "source_u", "source_w", "source_e"};
     for (int eq = 0; eq < 4; eq++) { Ev e; e.kind = 0; e.label = tr ? lab_t[eq] : lab_s[eq];
       e.ref = [variant, tr, visc, eq](const PM &p, const Q *x) { return Axi::ref(p, x, variant, tr, visc, eq); };
@@ -249,7 +260,7 @@ static std::vector<Spec> build() {
   {
     Spec s; s.name = "burgers_equation"; s.props = {"C04", "C09"}; s.nargs = 3;
     s.gen = [](Draw &d, PV &p, bool sweep) { roy_gas(d, p, sweep, 0.33, {}); };
-    s.genpt = [](Draw &d, long double *pt, const PV &) { box(d, pt, 2, true); };
+    s.genpt = [](Draw &d, long double *pt, const PV &p) { auto it = p.find("L"); box(d, pt, 2, true, it == p.end() ? 1.0L : it->second); };
     s.evals.push_back(EV("source_u", 0, masa_eval_source_u, A3, return Burg::ref(p, x, 0);));
     s.evals.push_back(EV("source_v", 0, masa_eval_source_v, A3, return Burg::ref(p, x, 1);));
     s.evals.push_back(EV("exact_u", 1, masa_eval_exact_u, A3, return Burg::uv<Q>(p, x[0], x[1], x[2])[0];));
@@ -263,7 +274,7 @@ static std::vector<Spec> build() {
   {
     Spec s; s.name = "rans_sa"; s.props = {"C05", "C09"}; s.nargs = 1;
     s.gen = [](Draw &d, PV &p, bool sweep) { for (auto &kv : p) { long double f = d.U(0.6L, 1.4L); long double g = sweepf(d, sweep, 0.15); if (kv.first == "re_tau") f *= powl(g, 1.0L / 3) * d.logU(0.1L, 10.0L); kv.second *= f; } };
-    s.genpt = [](Draw &d, long double *pt, const PV &) { pt[0] = d.U(0.01L, 0.99L); };
+    s.genpt = [](Draw &d, long double *pt, const PV &) { pt[0] = d.U(0.01L, 0.99L); static const long double lat[] = {1.0L, 0.5L, 0.25L, 0.75L, 0.125L, 1.0L}; bool g = d.coin(0.12); int k = d.range(0, 5); if (g) pt[0] = lat[k]; };   // mesh nodes of a half channel, the centreline eta = 1 included
     auto skip = [](const PM &p, const Q *x) { Channel::Aux a; Channel::ref(p, x, 1, &a); __float128 sw = a.Sbar.v + a.cv2.v * a.Om.v; return fabsq(sw) < 1e-6Q * (fabsq(a.Sbar.v) + fabsq(a.cv2.v * a.Om.v)) || fabsq(a.r.v - 10) < 1e-6Q; };
     s.evals.push_back(EV("source_u", 0, masa_eval_source_u, A1, return Channel::ref(p, x, 0);));
     { Ev e = EV("source_v", 0, masa_eval_source_v, A1, return Channel::ref(p, x, 1);); e.skip = skip; s.evals.push_back(e); }
@@ -275,7 +286,7 @@ static std::vector<Spec> build() {
     Spec s; s.name = "fans_sa_transient_free_shear"; s.props = {"C05", "C09"}; s.nargs = 3;
     s.gen = [](Draw &d, PV &p, bool sweep) { roy_gas(d, p, sweep, 0.25, {"rho", "p", "nu_sa"});
       p["mu"] = d.logU(0.05L, 5.0L); p["Pr"] = d.U(0.5L, 1.0L); p["Pr_t"] = d.U(0.5L, 1.0L); p["sigma"] = d.U(0.5L, 1.0L); p["c_v1"] = d.U(3.0L, 9.0L); p["R"] = pband(d) * (d.coin(0.3) ? 100.0L : 1.0L); };
-    s.genpt = [](Draw &d, long double *pt, const PV &) { box(d, pt, 2, true); };
+    s.genpt = [](Draw &d, long double *pt, const PV &p) { auto it = p.find("L"); box(d, pt, 2, true, it == p.end() ? 1.0L : it->second); };
     auto skipnu = [](const PM &p, const Q *x) { Q om = FreeShear::vorticity(p, x); return fabsq(om.v) < 1e-9Q * om.m; };
     struct D { const char *label; int eq; };
     for (int eq = 0; eq < 5; eq++) {
@@ -353,8 +364,10 @@ static std::vector<Spec> build() {
       p["theta_v_N2"] = d.logU(300.0L, 4000.0L); p["R"] = d.logU(1.0L, 10.0L); p["Ea_N"] = d.logU(100.0L, 9000.0L); p["Ea_N2"] = d.logU(100.0L, 9000.0L);
       p["etaf1_N"] = d.U(-1.5L, 1.5L); p["etaf1_N2"] = d.U(-1.5L, 1.5L); p["M_N"] = d.logU(1.0L, 30.0L); p["R_N"] = d.logU(0.1L, 500.0L); p["R_N2"] = d.logU(0.1L, 500.0L);
       p["Cf1_N"] = d.logU(0.1L, 10.0L); p["Cf1_N2"] = d.logU(0.1L, 10.0L);
-      long double l = d.logU(0.3L, 30.0L); p["L"] = d.coin(0.3) ? -l : l; };
-    s.genpt = [](Draw &d, long double *pt, const PV &) { box(d, pt, 1, false); };
+      long double l = d.logU(0.3L, 30.0L); p["L"] = d.coin(0.3) ? -l : l;
+      // both species sharing one Arrhenius law (the textbook Park set-up): exponents and activation energies exactly equal in one case of seven
+      if (d.coin(0.15)) { p["etaf1_N2"] = p["etaf1_N"]; p["Ea_N2"] = p["Ea_N"]; } };
+    s.genpt = [](Draw &d, long double *pt, const PV &p) { auto it = p.find("L"); box(d, pt, 1, false, it == p.end() ? 1.0L : it->second); };
     { Ev e; e.kind = 0; e.label = "source_rho_N"; e.ld = [](const long double *a) { return masa_eval_source_rho_N<long double>(a[0], &keq_ld); }; e.d = [](const double *a) { return masa_eval_source_rho_N<double>(a[0], &keq_d); }; e.ref = [](const PM &p, const Q *x) { return Chem::ref(p, x, 0, keq_q); }; s.evals.push_back(e); }
     { Ev e; e.kind = 0; e.label = "source_rho_N2"; e.ld = [](const long double *a) { return masa_eval_source_rho_N2<long double>(a[0], &keq_ld); }; e.d = [](const double *a) { return masa_eval_source_rho_N2<double>(a[0], &keq_d); }; e.ref = [](const PM &p, const Q *x) { return Chem::ref(p, x, 1, keq_q); }; s.evals.push_back(e); }
     s.evals.push_back(EV("source_rho_u", 0, masa_eval_source_rho_u, A1, return Chem::ref(p, x, 2, keq_q);));
